@@ -36,8 +36,8 @@ type anchorFP struct {
 
 type anchorFile struct {
 	Comment string              `json:"comment"`
-	Funcs   map[string]anchorFP `json:"funcs"` // key: pkg.Name or pkg.(Recv).Name
-	Atoms   map[string]string   `json:"atoms"` // global variable name -> interned text
+	Funcs   map[string]anchorFP `json:"funcs"`   // key: pkg.Name or pkg.(Recv).Name
+	Atoms   map[string]string   `json:"atoms"`   // global variable name -> interned text
 	Globals map[string]string   `json:"globals"` // every other package-level variable of the engine -> its type
 }
 
